@@ -427,6 +427,10 @@ pub fn copy_range_into_slice<T: Clone>(
         })
         .collect();
 
+    // Callers rely on every element of `dest` being initialized.
+    let sliced_len: usize = index_ranges.iter().map(|r| r.steps()).product();
+    assert_eq!(dest.len(), sliced_len, "output too short");
+
     copy_range_into_slice_inner(src, dest, &index_ranges);
 }
 
